@@ -30,6 +30,8 @@ def subharnesses(tier):
         subs += c15_ldap.subharnesses(tier)
     except ImportError:
         pass
+    import c15_zk
+    subs += c15_zk.subharnesses(tier)
     return subs
 
 
@@ -208,6 +210,9 @@ def harness(S, spec):
         _uniquename(S, spec)
     elif k == 'uniquename2':
         _uniquename2(S, spec)
+    elif k in ('zkpayload', 'zkpayload2'):
+        import c15_zk
+        c15_zk.harness(S, spec)
     else:
         import c15_ldap
         c15_ldap.harness(S, spec)
@@ -220,5 +225,5 @@ META = {
         'trace.app.events.*TraceEvent.to_data / from_data / event_data',
         'trace.server.events.*TraceEvent.to_data / from_data',
         'appcfg._fmt_unique_name', 'appcfg.app_name', 'appcfg.app_unique_id'],
-    'reach_required': ['encoded'],
+    'reach_required': ['encoded', 'zk_payload_written'],
 }
